@@ -2017,6 +2017,14 @@ class Controller:
                             component.specification.workflowAttributes['shutdownOn'])
                           )
 
+            if exitReason is None and component.engine.isAlive():
+                # VV: This is a stale notification. Engine state updates travel through several thread-pools so a
+                # POSTMORTEM update that was emitted before the engine got restarted may be delivered after the
+                # restart. The engine is alive, there is nothing to post-mortem; acting on the notification would
+                # mark a healthy component as Failed (exitReason None is not restartable).
+                self.log.info("Ignoring stale POSTMORTEM notification from %s - its engine is alive" % reference)
+                return
+
             if self._restartComponent(component) == experiment.model.codes.restartCodes["RestartInitiated"]:
                 self.log.info("Restarted component with exitReason %s and returnCode %s" % (exitReason, returncode))
             else:
